@@ -344,9 +344,9 @@ Proof.
   assert (Hnd : NoDup U_double) by (repeat constructor; cbn; intuition discriminate).
   apply (sum_effect unit 100 U_double Hnd double_sd_tree 0 1 st_double).
   - cbn; auto.
-  - intros x Hx. vm_compute in Hx. cbn. intuition.
-  - intros a. rewrite U64_val. vm_compute.
-    destruct (a =? 1); [reflexivity|]. destruct ((a =? 3) || (a =? 4))%bool; reflexivity.
+  - intros x Hx. cbn in Hx. cbn. intuition.
+  - intros a. rewrite U64_val. cbn [st_double nonce].
+    destruct (a =? 1); [|destruct ((a =? 3) || (a =? 4))%bool]; vm_compute; reflexivity.
   - discriminate.
   - reflexivity.
 Qed.
